@@ -149,6 +149,15 @@ def gen_cases(ctx):
         big.append(("insert", blob[:n + 5], (7, 3), D))
         big.append(("move", blob[:n + 9], (0, 9, n), D))
         big.append(("move", blob[:n + 9], (9, 0, n), D))
+    # buffer sizes around the real default together with sizes around it (growth and shrink larger than one buffer)
+    small = bytes((i * 40503 >> 3) & 0xFF for i in range(5003))
+    for B in ctx.budget([D + 1], [D - 1, D, D + 1, 2 * D + 1]):
+        for n in ctx.budget([D + 1], [D - 1, D, D + 1, 2 * D + 3]):
+            big.append(("insert", small, (n, 17), B))
+            big.append(("resize", small, (3, n + 3, 1000), B))
+            grown = small[:1000] + bytes((i * 7919 >> 2) & 0xFF for i in range(n + 5)) + small[1000:]
+            big.append(("delete", grown, (n, 1000), B))
+            big.append(("resize", grown, (n + 5, 2, 1000), B))
     return cases, nex, big
 
 
